@@ -604,3 +604,33 @@ contract(FSD + '.dump', 'C03',
                                         '(self.sys == call_arg("C03/felica.polling", "system_code") and '
                                         'self.idm == call_ret("C03/felica.polling")[0])')],
          raises={})
+
+# ---------------------------------------------------------------- C03: Type 2 format() (erase)
+# format() rewrites the NDEF TLV as empty (L = 0, terminator) and optionally wipes the rest of the data area.  Same
+# abstract memory image as the write path: whatever prefix of the flush reached the tag, nothing before the length
+# field and nothing behind the data area differs from before (the obligations sit in TagImage.synchronize) - also
+# when the empty NDEF TLV is the last thing in the data area and there is no room for a terminator.
+T2F = 'nfc.tag.tt2.Type2Tag._format'
+contract(T2 + 'Type2Tag._format', 'C03',
+         dict(self=Obj(T2 + 'Type2Tag', _ndef=Obj(
+             T2 + 'Type2Tag.NDEF', _partial=False, _data=None, _capacity=Int(0, None), _readable=True,
+             _writeable=True, _tag=None, _ndef_tlv_offset=Int(16, 2060), _skip_bytes=None,
+             _tag_memory=Obj('models.tag_models:TagImage', _partial=False, img=Bytes(64, None),
+                             mem=Ref('self._ndef._tag_memory.img'), mem0=Ref('self._ndef._tag_memory.img'),
+                             off=Ref('self._ndef._ndef_tlv_offset'), end=Int(16, 2056), a=Int(0, 0x80000),
+                             b=Int(0, 0x80000), unit=4, goal=Const(b''), syncs=0, check_cut=False, inside=False))),
+              version=Const(None), wipe=Opt(Int(0, 255))),
+         name='C03/tt2._format',
+         setup=lambda ex, env: t2_setup(ex, {'self': env['self'].fields['_ndef']}),
+         requires=['%s.end == %s.img[14] * 8 + 16 and %s.end <= len(%s.img)' % (('self._ndef._tag_memory',) * 4),
+                   'len(self._ndef._tag_memory.img) % 4 == 0',
+                   't12_view(%s.img, %s.off, %s.end, %s.a, %s.b) != NO_NDEF' % (('self._ndef._tag_memory',) * 5),
+                   '%s.a >= %s.b or %s.b <= %s.off or %s.a >= %s.end' % (('self._ndef._tag_memory',) * 6)],
+         ensures=[('O-format.flushed', 'result == True and self._ndef._tag_memory.syncs == 1')],
+         raises={},
+         loops={(T2F, 'For', 0): LoopSpec(
+             entry={'_c': 'bytes(self._ndef._tag_memory.img)'},
+             invariant=['len(self._ndef._tag_memory.img) == len(_c)',
+                        'self._ndef._tag_memory.img[0:self._ndef._tag_memory.off + 3] == _c[0:self._ndef._tag_memory.off + 3]',
+                        'self._ndef._tag_memory.img[self._ndef._tag_memory.end:] == _c[self._ndef._tag_memory.end:]'],
+             havoc={'self._ndef._tag_memory.img': Bytes(64, None), 'offset': Int(0, None)})})
